@@ -176,9 +176,12 @@ func (c CounterStyle) renderValue(counterValue int, counter *CounterStyleDescrip
 		}
 		negativePrefix, negativeSuffix = symbol(vs[0]), symbol(vs[1])
 		useNegative = system == "symbolic" || system == "alphabetic" || system == "numeric" || system == "additive"
-		if useNegative {
-			counterValue = utils.Abs(counterValue)
-		}
+	}
+	// the value given to the algorithm of the system; counterValue (with its sign)
+	// is the one passed to the fallback styles
+	value := counterValue
+	if isNegative && useNegative {
+		value = utils.Abs(counterValue)
 	}
 
 	var (
@@ -187,7 +190,7 @@ func (c CounterStyle) renderValue(counterValue int, counter *CounterStyleDescrip
 	)
 	switch system {
 	case "cyclic":
-		initial, ok = repeating(counter.Symbols, counterValue)
+		initial, ok = repeating(counter.Symbols, value)
 		if !ok {
 			return c.RenderValue(counterValue, "decimal")
 		}
@@ -195,22 +198,22 @@ func (c CounterStyle) renderValue(counterValue int, counter *CounterStyleDescrip
 		if len(counter.Symbols) == 0 {
 			return c.RenderValue(counterValue, "decimal")
 		}
-		initial, ok = nonRepeating(counter.Symbols, fixedNumber, counterValue)
+		initial, ok = nonRepeating(counter.Symbols, fixedNumber, value)
 		if !ok {
 			return c.renderValue(counterValue, c.resolveCounter(counter.fallback(), previousTypes), previousTypes)
 		}
 	case "symbolic":
-		initial, ok = symbolic(counter.Symbols, counterValue)
+		initial, ok = symbolic(counter.Symbols, value)
 		if !ok {
 			return c.RenderValue(counterValue, "decimal")
 		}
 	case "alphabetic":
-		initial, ok = alphabetic(counter.Symbols, counterValue)
+		initial, ok = alphabetic(counter.Symbols, value)
 		if !ok {
 			return c.RenderValue(counterValue, "decimal")
 		}
 	case "numeric":
-		initial, ok = numeric(counter.Symbols, counterValue)
+		initial, ok = numeric(counter.Symbols, value)
 		if !ok {
 			return c.RenderValue(counterValue, "decimal")
 		}
@@ -218,7 +221,7 @@ func (c CounterStyle) renderValue(counterValue int, counter *CounterStyleDescrip
 		if len(counter.AdditiveSymbols) == 0 {
 			return c.RenderValue(counterValue, "decimal")
 		}
-		initial, ok = additive(counter.AdditiveSymbols, counterValue)
+		initial, ok = additive(counter.AdditiveSymbols, value)
 		if !ok {
 			return c.renderValue(counterValue, c.resolveCounter(counter.fallback(), previousTypes), previousTypes)
 		}
